@@ -3,7 +3,7 @@
    amplitude tree of its angle tables, for every n and every table. *)
 From Coq Require Import Reals Lra List Bool Arith Lia NArith FunctionalExtensionality QArith Qreals.
 From Coquelicot Require Import Complex.
-From QV Require Import Sem Mat2 UcrLocal Toff2 Chain UcrPlaced TopDownWalk UcrModel TopDownModel.
+From QV Require Import Sem Mat2 UcrLocal Toff2 Chain UcrPlaced TopDownWalk AmpTree UcrModel TopDownModel.
 Import ListNotations.
 Open Scope R_scope.
 
@@ -235,4 +235,43 @@ Theorem topdown_q0_amplitudes n (ys zs : list (list Q)) b :
 Proof.
   intros Hy Hz Hb. unfold topdown_q0, topdown_gates. rewrite levels_q_R.
   apply (topdown_model_amplitudes n); auto; now rewrite map_length.
+Qed.
+
+(* ---------- end to end on the real instance: angle tables computed from a state tree ---------- *)
+Lemma amp_ext (ay az ay' az' : nat -> nat -> R) : forall l j, (j < 2 ^ l)%nat ->
+  (forall l' p, (l' < l)%nat -> (p < 2 ^ l')%nat -> ay l' p = ay' l' p /\ az l' p = az' l' p) ->
+  amp ay az l j = amp ay' az' l j.
+Proof.
+  induction l as [|l IH]; intros j Hj H. reflexivity.
+  cbn [amp]. assert (Hp : (j / 2 < 2 ^ l)%nat).
+  { apply Nat.div_lt_upper_bound; [lia|]. simpl in Hj. lia. }
+  destruct (H l (j / 2)%nat ltac:(lia) Hp) as [-> ->].
+  rewrite (IH (j / 2)%nat Hp). reflexivity. intros l' p Hl' Hp'. apply H; auto.
+Qed.
+
+Lemma lidx_lt n : forall l b, (l <= n)%nat -> (lidx n l b < 2 ^ l)%nat.
+Proof.
+  induction l as [|l IH]; intros b Hl. simpl. unfold lidx. simpl. lia.
+  rewrite lidx_S by lia. specialize (IH b ltac:(lia)). simpl. destruct (get b (tq n l)); lia.
+Qed.
+
+(* If the tables handed to the model are the angle tree of a state tree (mag, arg) - which the correspondence check
+   verifies numerically on every run - the circuit prepares m_k e^{i(phi_k - phi_root)} (times the root magnitude):
+   with the global phase phi_root that TopDownInitialize adds and a unit vector this is the requested state. *)
+Theorem topdown_prepares_state (n : nat) (ys zs : list (list R)) (mag arg : nat -> nat -> R) b :
+  length ys = n -> length zs = n ->
+  (forall l j, 0 <= mag l j) ->
+  (forall l j, mag l j * mag l j = mag (S l) (2*j)%nat * mag (S l) (2*j)%nat + mag (S l) (2*j+1)%nat * mag (S l) (2*j+1)%nat) ->
+  (forall l j, arg l j = (arg (S l) (2*j)%nat + arg (S l) (2*j+1)%nat) / 2) ->
+  (forall l j, (l < n)%nat -> (j < 2 ^ l)%nat -> tab ys l j = AmpTree.ay mag l j /\ tab zs l j = AmpTree.az arg l j) ->
+  (forall q, (n <= q)%nat -> get b q = false) ->
+  (run (map gR (topdown_gates Rops nzR n ys zs 0)) ket0 b * mag 0%nat 0%nat
+   = mag n (lidx n n b) * cis (arg n (lidx n n b) - arg 0%nat 0%nat))%C.
+Proof.
+  intros Hy Hz M1 M2 A1 T Hb.
+  rewrite (topdown_model_amplitudes n ys zs Hy Hz b Hb).
+  rewrite (amp_ext _ _ (AmpTree.ay mag) (AmpTree.az arg)).
+  - apply AmpTree.amp_tree; auto. apply lidx_lt. lia.
+  - apply lidx_lt. lia.
+  - intros l' p Hl Hp. apply T; auto.
 Qed.
